@@ -98,8 +98,11 @@ fn bodies(maxlen: usize) -> Vec<String> {
     v
 }
 
-const FIELD_TYPES: [&str; 12] = [
+const FIELD_TYPES: [&str; 19] = [
     "u8", "Vec<T>", "&'a str", "*const u8", "[u8; 4]", "(T, u8)", "fn(T) -> u8", "Box<dyn for<'b> Tr<'b, T>>", "<T as Tr>::Out", "m!(T)", "impl Sized", "impl Sized + use<T>",
+    // every kind of generic argument: lifetime, type, const, associated type / const binding, constraint
+    "Box<dyn Shape<SIDES = 3>>", "Foo<'a, T, 3, { 1 + 2 }, Item = T, Item: Tr<T>, N = 4>", "Holder<Vec<dyn Shape<SIDES = { N }>>>", "Foo<-1>", "Foo<N>",
+    "Box<dyn Fn(T) -> T + 'a>", "[T; { <T as Tr>::N }]",
 ];
 
 /// (prefix before the container attrs, text after them with `{F}` / `{V}` marking the slot for
@@ -184,6 +187,24 @@ pub struct Case {
     pub nontrivial: bool,
 }
 
+/// Member names x `rename_all` rules (the case conversion runs at derive time).
+fn rename_cases(out: &mut Vec<Case>) {
+    let rules = ["lowercase", "PascalCase", "camelCase", "snake_case", "SCREAMING_SNAKE_CASE", "kebab-case", "Title Case", ""];
+    let fields = ["__", "___", "_a", "a_", "a__b", "_1", "é", "été_x", "r#type", "A", "aB", "x1", "_é", "ß_ß", "a", "日本"];
+    let variants = ["Été", "É", "_A", "__", "A_", "a", "X1", "ÀB", "A", "AB", "aB", "日本", "ßx"];
+    for r in rules {
+        for pre in ["", "attributes(a), "] {
+            for f in fields {
+                out.push(Case { src: format!("#[darling({pre}rename_all = \"{r}\")] struct S {{ {f}: u8, other: u8 }}"), nontrivial: true });
+                out.push(Case { src: format!("#[darling({pre}rename_all = \"{r}\")] enum E {{ V {{ {f}: u8 }}, W }}"), nontrivial: true });
+            }
+            for v in variants {
+                out.push(Case { src: format!("#[darling({pre}rename_all = \"{r}\")] enum E {{ {v}, Other(u8) }}"), nontrivial: true });
+            }
+        }
+    }
+}
+
 pub fn cases(tier: Tier) -> Vec<Case> {
     let thorough = tier == Tier::Thorough;
     let bs = bodies(if thorough { 3 } else { 2 });
@@ -208,6 +229,7 @@ pub fn cases(tier: Tier) -> Vec<Case> {
             }
         }
     }
+    rename_cases(&mut out);
     out
 }
 
@@ -283,7 +305,7 @@ pub fn main(args: &Args) {
     rep.set("option_selection_declarations", json!(n2));
     rep.set("derive_inputs", json!(n_cases));
     rep.rule = format!(
-        "DeriveInput grammar: shapes (unit, newtype, 2/3-tuple, named 0..3 fields incl. magic names, every enum of 0..{} variants over 4 styles, union, 12 field types incl. `impl Sized + use<T>`) x 3 generics forms x `#[darling ...]` attributes at container, first-field and first-variant position: every token sequence of length <= {} over {{default zz = , \"s\" 5 true :: - ! (x)}}, 12 non-list / malformed forms, 20 well-formed options; plus every option-selection declaration of the C10 check (ordered selections of field / variant / container options, body-rule cases); each accepted item goes through all six derive functions under catch_unwind. Oracle: returns; output parses as items and is exactly one impl of the requested trait xor >= 1 compile_error!. distinct_nontrivial = derive inputs that carry a darling attribute other than a plain `default`.",
+        "DeriveInput grammar: shapes (unit, newtype, 2/3-tuple, named 0..3 fields incl. magic names, every enum of 0..{} variants over 4 styles, union, 19 field types incl. `impl Sized + use<T>` and every kind of generic argument; 29 member names (underscore-only, non-ASCII, raw) x 8 rename_all values) x 3 generics forms x `#[darling ...]` attributes at container, first-field and first-variant position: every token sequence of length <= {} over {{default zz = , \"s\" 5 true :: - ! (x)}}, 12 non-list / malformed forms, 20 well-formed options; plus every option-selection declaration of the C10 check (ordered selections of field / variant / container options, body-rule cases); each accepted item goes through all six derive functions under catch_unwind. Oracle: returns; output parses as items and is exactly one impl of the requested trait xor >= 1 compile_error!. distinct_nontrivial = derive inputs that carry a darling attribute other than a plain `default`.",
         args.tier.pick(2, 3),
         args.tier.pick(2, 3)
     );
